@@ -58,6 +58,16 @@ func (p *parser) parseStatement() ast.Statement {
 		p.comments.ResetLineBreak()
 	}
 
+	// The labels that directly prefix an iteration statement form its label set.
+	pendingLabels := p.scope.pendingLabels
+	p.scope.pendingLabels = 0
+	switch p.token {
+	case token.DO, token.WHILE, token.FOR:
+		for index := len(p.scope.labels) - pendingLabels; index < len(p.scope.labels); index++ {
+			p.scope.labelIteration[index] = true
+		}
+	}
+
 	switch p.token {
 	case token.SEMICOLON:
 		return p.parseEmptyStatement()
@@ -122,8 +132,11 @@ func (p *parser) parseStatement() ast.Statement {
 			labelComments = p.comments.FetchAll()
 		}
 		p.scope.labels = append(p.scope.labels, label) // Push the label
+		p.scope.labelIteration = append(p.scope.labelIteration, false)
+		p.scope.pendingLabels = pendingLabels + 1
 		statement := p.parseStatement()
 		p.scope.labels = p.scope.labels[:len(p.scope.labels)-1] // Pop the label
+		p.scope.labelIteration = p.scope.labelIteration[:len(p.scope.labelIteration)-1]
 		exp := &ast.LabelledStatement{
 			Label:     identifier,
 			Colon:     colon,
@@ -878,7 +891,7 @@ func (p *parser) parseContinueStatement() ast.Statement {
 			p.error(idx, "Undefined label '%s'", identifier.Name)
 			return &ast.BadStatement{From: idx, To: identifier.Idx1()}
 		}
-		if !p.scope.inIteration {
+		if !p.scope.inIteration || !p.scope.hasIterationLabel(identifier.Name) {
 			goto illegal
 		}
 		p.semicolon()
